@@ -536,4 +536,35 @@ pub fn run(ctx: &mut Ctx) {
         }
         ctx.sample(|| json!({"new_term calls": seq}));
     }
+    // ---- (last) more terms than a 16-bit index can address: 66 000 new_term calls, links and annotations
+    // among the last ones, with rejected calls interleaved
+    ctx.space("histories/66000-terms", "66 000 terms (ids 1..=66000, term k is_a term k/2 for the last 600 terms and for k <= 600), genes on the last terms; every valid call accompanied by rejected calls naming absent ids; the whole read API against the model of the valid calls");
+    if ctx.take() {
+        ctx.state();
+        ctx.nontrivial();
+        let n = 66_000u32;
+        let mut f = Facts::default();
+        for k in 1..=n {
+            f.terms.push(Facts::term(k, "t"));
+        }
+        for k in (2..=600u32).chain(n - 600..=n) {
+            f.edges.push((k, k / 2));
+        }
+        for k in [n, n - 1, 65_536, 65_535, 3] {
+            f.anns.push(Facts::ann(Kind::Gene, k, &format!("G{k}"), Some(k)));
+            f.anns.push(Facts::ann(Kind::Omim, k, &format!("D{k}"), Some(k)));
+        }
+        let model = RefOnt::derive(&f);
+        ctx.transitions(3 * f.n_steps());
+        ctx.exec();
+        ctx.validated();
+        let absent = [n + 1, 0, 9_999_999, 10_000_000, u32::MAX];
+        match crate::drive::build_with_rejected(&f, Mode::Minimal, &absent) {
+            Ok(ont) => {
+                crate::drive::check_against_model(ctx, &ont, &model, Mode::Minimal, "builder, 66 000 terms, rejected calls interleaved", &|| json!({"terms": n, "links": f.edges.len(), "records": 10}));
+            }
+            Err(e) => ctx.violation("Builder", "a valid call fails or a call naming an absent term succeeds (66 000 terms)", json!({"terms": n, "observed": e})),
+        }
+        ctx.sample(|| json!({"terms": n}));
+    }
 }
